@@ -27,7 +27,7 @@ def project_result(out, index_of):
     if out[0] == 'exc':
         return {'exc': out[1], 'msg': out[2]}
     r = out[1]
-    isset = type(r) is set
+    isset = isinstance(r, (set, frozenset))      # an immutable set is a set too (ownership is then trivial)
     try:
         items = list(r)
     except TypeError:
@@ -74,7 +74,9 @@ CASE_LIMIT_S = 20.0
 # are chosen to meet the library's own vocabulary: Python's True/False, near-keywords, and (object modes only) reserved words
 REN_TEXT = [{'p': 'True'}, {'q': 'False'}, {'p': 'False', 'q': 'True'}, {'p': 'q', 'q': 'p'}, {'p': 'true_', 'q': 'not_q'},
             {'p': 'Ap', 'q': 'EXq'}, {'p': 'None', 'q': 'fairness'}, {'p': 'P', 'q': 'p'}]
-REN_OBJ = [{'p': 'A', 'q': 'U'}, {'p': 'true', 'q': 'false'}, {'p': 'or', 'q': 'not'}, {'p': 'p q', 'q': ''}, {'p': '0', 'q': '1'}]
+REN_OBJ = [{'p': 'A', 'q': 'U'}, {'p': 'true', 'q': 'false'}, {'p': 'or', 'q': 'not'}, {'p': 'p q', 'q': ''}, {'p': '0', 'q': '1'},
+           {'p': '\u03c6', 'q': 'caf\u00e9'}, {'p': 'request raised by client ' * 4, 'q': 'request raised by client ' * 4 + '!'},
+           {'p': 'p' * 70 + '1', 'q': 'p' * 70 + '2'}]
 PLAIN_NAMES = ('p', 'q', 'r')
 
 
@@ -104,8 +106,30 @@ def mc_event(case):
     if ren is None and t0 % 9 == 4:
         names = _atoms_of(f0, set()) | {a for l in K0['L'] for a in l}
         if names <= set(PLAIN_NAMES):
-            pool = REN_TEXT if case.get('mode', 'obj') == 'text' else REN_TEXT + REN_OBJ
+            pool = REN_TEXT + REN_OBJ        # in text mode names that are not plain identifiers are written quoted (pymc.to_text)
             ren = pool[(t0 // 9) % len(pool)]
+    if ren is None and case['logic'] == 'CTLS' and t0 % 9 == 7:
+        # an atom named exactly like the auxiliary label the CTL* algorithm generates for a nested quantified subformula
+        # ('[' + printed subformula + ']').  Only atoms that label some state are renamed: the generated label must then
+        # avoid the clash
+        used = {a for l in K0['L'] for a in l}
+        subs = []
+
+        def walk(x, top):
+            if x[0] in ('A', 'E') and not top:
+                subs.append(x)
+            for y in x[1:]:
+                if isinstance(y, (tuple, list)):
+                    walk(y, False)
+        walk(f0, True)
+        for sub in subs:
+            free = sorted((_atoms_of(f0, set()) & used & set(PLAIN_NAMES)) - _atoms_of(sub, set()))
+            if free:
+                try:
+                    ren = {free[0]: '[%s]' % str(to_obj(sub, pymc.CTLS))}
+                except Exception:
+                    ren = None
+                break
     if ren:
         K = dict(K0, L=[sorted(ren.get(a, a) for a in l) for l in K0['L']])
         fr = _rename(f0, ren)
@@ -114,19 +138,39 @@ def mc_event(case):
     S0 = case.get('S0')
     if S0 is None:
         S0 = [] if t % 3 == 0 else [i for i in range(K['n']) if (i + t) % 3 == 0] if t % 3 == 1 else [t % K['n']]
-    k, name, index_of = mk_kripke(K, case.get('naming', 'int'), rng=rng, S0=S0, relabel=case.get('relabel', t % 7 == 5))
+    # a structure that is edited between two calls: built without one of its transitions (still total), queried once,
+    # completed through the inherited add_edge, and only then asked the recorded question
+    late = None
+    if case.get('late_edge', t % 13 == 6):
+        outdeg = {}
+        for a, b in K['R']:
+            outdeg[a] = outdeg.get(a, 0) + 1
+        cand = [e for e in K['R'] if outdeg[e[0]] > 1]
+        if cand:
+            late = cand[(t // 13) % len(cand)]
+    Kc = dict(K, R=[e for e in K['R'] if e != late]) if late else K
+    k, name, index_of = mk_kripke(Kc, case.get('naming', 'int'), rng=rng, S0=S0, relabel=case.get('relabel', t % 7 == 5))
     try:
         formula = build_formula(case['logic'], fr, case.get('mode', 'obj'))
     except Exception as ex:       # constructing a well-formed formula must not fail
         out = ('exc', 'construct:' + type(ex).__name__, str(ex)[:200])
     else:
         F = case.get('F')
-        Fa = None if F is None else [set(name(i) for i in P) for P in F]
+        Fa = pymc.present_F(F, name, rng)
+        if late:
+            warm = with_time_limit(lambda: call_mc(case['logic'], k, formula, F=Fa), case.get('limit', CASE_LIMIT_S))
+            k.add_edge(name(late[0]), name(late[1]))
+            if isinstance(formula, str) or case.get('mode', 'obj') == 'text':
+                pass
+            elif (t // 13) % 2:
+                formula = build_formula(case['logic'], fr, case.get('mode', 'obj'))     # a fresh object for the second call
         out = with_time_limit(lambda: call_mc(case['logic'], k, formula, F=Fa), case.get('limit', CASE_LIMIT_S))
     ev = {'tid': case['tid'], 'logic': case['logic'], 'n': K0['n'], 'R': K0['R'], 'L': K0['L'],
           'f': f0, 'out': project_result(out, index_of)}
     if ren:
         ev['ren'] = ren
+    if late:
+        ev['late_edge'] = late
     if case.get('cert'):
         ev['cert'] = case['cert']
     if case.get('F') is not None:
